@@ -9,6 +9,7 @@ package verifhook
 var (
 	EOFReads  int64
 	Tokens    int64
+	Walks     int64 // ancestor lists expanded by the method/value look-ups
 	BudgetEOF int64
 	BudgetTok int64
 	Serving   bool
@@ -23,6 +24,7 @@ type ExitCalled struct{ Code int }
 func ResetSteps(budgetEOF, budgetTok int64) {
 	EOFReads = 0
 	Tokens = 0
+	Walks = 0
 	BudgetEOF = budgetEOF
 	BudgetTok = budgetTok
 }
@@ -45,6 +47,21 @@ func Token() {
 		BudgetEOF = 0
 		BudgetTok = 0
 		panic(BudgetHit{Kind: "tokens"})
+	}
+}
+
+// WalkBudgetFactor relates the budget of ancestor-list expansions to the
+// token budget: a look-up that walks an inheritance lattice path by path is
+// work no token fetch accounts for.
+const WalkBudgetFactor = 50
+
+// Walk is called whenever a look-up expands the ancestor list of a class.
+func Walk() {
+	Walks++
+	if BudgetTok > 0 && Walks > WalkBudgetFactor*BudgetTok {
+		BudgetEOF = 0
+		BudgetTok = 0
+		panic(BudgetHit{Kind: "walks"})
 	}
 }
 
